@@ -63,8 +63,9 @@ def run(rep):
              'from namesAndDescriptions(all=True)', floor=3)
     rep.rule('R15.5', 'the accessors follow later __bases__ changes: '
              'Specification.changed recomputes __iro__ on every path and '
-             'notifies every dependent unconditionally (same obligations as '
-             'C02 R02.1/R02.2)', floor=10)
+             'notifies every dependent unconditionally, and the __bases__ setter '
+             'makes the specification a dependent of exactly its new bases (same '
+             'obligations as C02 R02.1/R02.2/R02.3)', floor=10)
     rep.decline('none - relative to C02/C03 (what __iro__ is and that it '
                 'follows __bases__ changes)')
 
@@ -137,6 +138,11 @@ def run(rep):
     from . import specsem
     specsem.changed_recompute(rep, mod, 'R15.5')
     specsem.changed_notify(rep, mod, 'R15.5')
+    # ... which presupposes that the interface IS a dependent of its current
+    # bases: the __bases__ store protocol (C02 R02.3) and the counting
+    from .C02 import r02_3
+    r02_3(rep, mod, 'R15.5')
+    specsem.subscription_counting(rep, mod, 'R15.5')
 
     # ---- R15.4 --------------------------------------------------------------
     f = ms['names']
